@@ -420,6 +420,51 @@ def offset_rule(F, rep):
                           "%s:%s" % (fd[0]["file"], bad[0].get("l")))
         else:
             rep.ok(r4, "offset:print", "%d remainder(s), all on the magnitude" % len(rems))
+        # the printed text, folded on representative offsets: sign of the offset, then hh:mm[:ss] of its magnitude - what from_captures reads back as the same offset
+        import strfold
+        from hireval import Evaluator, TooManyPaths
+        probs, und, n_ok = [], 0, 0
+        for k in (1, 59, 60, 1800, 3599, 3600, 3661, 12600, 50400):
+            for sg in (1, -1):
+                off = sg * k
+                ev = Evaluator(F, ints=True, max_paths=400)
+                sf = strfold.StrFold(ev)
+
+                def hook(c, a, s_, sf=sf):
+                    c = c or ""
+                    if c.endswith("::write_fmt") and len(a) == 2:
+                        r = sf.format_value(a[1])
+                        return ("written", r) if r is not None else None
+                    if c.endswith("::write_str") and len(a) == 2 and strfold.as_str(a[1]) is not None:
+                        return ("written", strfold.as_str(a[1]))
+                    return sf.hook(c, a, s_)
+                ev.call_hook = hook
+                try:
+                    outs = ev.run(fd[0]["params"], fd[0]["body"], [("v", "Offset", [("lit", off)]), ("sym", "f")])
+                except (TooManyPaths, ValueError, KeyError, RecursionError):
+                    outs = []
+                txts = set()
+                for _, v in outs:
+                    if isinstance(v, tuple) and v[0] == "written" and strfold.as_str(v[1]) is not None and all(a_[0] == "c" for a_ in strfold.as_str(v[1])[1]):
+                        txts.add("".join(a_[1] for a_ in strfold.as_str(v[1])[1]))
+                    else:
+                        txts.add(None)
+                if len(txts) != 1 or None in txts:
+                    und += 1
+                    continue
+                got = txts.pop()
+                hh, mm, ss = k // 3600, k % 3600 // 60, k % 60
+                want = ("-" if off < 0 else "+") + "%02d:%02d" % (hh, mm) + (":%02d" % ss if ss else "")
+                if got != want:
+                    probs.append("the offset of %d seconds is printed `%s`, which does not denote it (`%s` does)" % (off, got, want))
+                else:
+                    n_ok += 1
+        if probs:
+            rep.violation(r4, "offset:print-fold", "; ".join(probs[:3]) + " (%d of 18 representative offsets)" % len(probs), "%s:%s" % (fd[0]["file"], fd[0]["line"]))
+        elif und:
+            rep.undecided(r4, "offset:print-fold", "%d of 18 representative offsets do not fold to a literal text" % und)
+        else:
+            rep.ok(r4, "offset:print-fold", "18 representative offsets print as sign + hh:mm[:ss] of the magnitude")
 
 
 # ======================================================================================================
